@@ -91,10 +91,12 @@ func seqOps(e *nEnv, sc *seqCfg, phys []physVer) []nOp {
 			ops = append(ops, nOp{kind: "close", arg: "newest"})
 		}
 	}
-	// second writer: one put per key, Delete2, GetNode
+	// second writer (the last one created; with three writers the middle one of the writer list stays
+	// idle): one put per key, Delete2
+	w2 := len(e.ws) - 1
 	for _, k := range keys {
-		ops = append(ops, nOp{kind: "put", w: 1, k: k, v: "2"})
-		ops = append(ops, nOp{kind: "del2", w: 1, k: k, v: "2"})
+		ops = append(ops, nOp{kind: "put", w: w2, k: k, v: "2"})
+		ops = append(ops, nOp{kind: "del2", w: w2, k: k, v: "2"})
 	}
 	for _, k := range keys {
 		ops = append(ops, nOp{kind: "get", w: 0, k: k, v: "1"})
@@ -107,7 +109,7 @@ func seqOps(e *nEnv, sc *seqCfg, phys []physVer) []nOp {
 	}
 	for hi, h := range e.handles {
 		if linked[h.node] && hi < 3 {
-			ops = append(ops, nOp{kind: "delnode", w: 1, h: hi})
+			ops = append(ops, nOp{kind: "delnode", w: w2, h: hi})
 			if h.ver.dead != 0 {
 				// a losing DeleteNode through the other writer as well
 				ops = append(ops, nOp{kind: "delnode", w: 0, h: hi})
@@ -257,6 +259,14 @@ func (e *nEnv) checkOpenSnapshots() string {
 		}
 		if c := s.s.Count(); c != int64(len(s.content)) {
 			return fmt.Sprintf("open snapshot epoch %d Count()=%d, it holds %d items", s.sn, c, len(s.content))
+		}
+		// the same scan through an iterator that refreshes its accessor token after every item
+		got2, p2 := scanSnapRate(s.s, 1)
+		if p2 != "" {
+			return fmt.Sprintf("snapshot epoch %d (refresh rate 1): %s", s.sn, p2)
+		}
+		if fmt.Sprint(got2) != fmt.Sprint(s.content) {
+			return fmt.Sprintf("open snapshot epoch %d scanned with refresh rate 1 yields %s, at creation it held %s", s.sn, showAll(got2), showAll(s.content))
 		}
 	}
 	return ""
